@@ -291,3 +291,50 @@ def run_uninitctx(prog, ctx=None):
                                "" if ok else "context object %s is passed to %s together with a callback but no field of it is set before the call" % (
                                    locs[vid][0], callee_name(e) or "the callee"))
     return res
+
+
+def run_idfit(prog, ctx=None):
+    """IDFIT: interval proof over mpt_message_id2buf() per header width w = 1..8 (trace partition on the remaining length unrolls
+    the byte loop): every id the width table permits (0 .. 2^(8w-1)-1) is accepted, ids with the reply marker bit or more than
+    w bytes are refused"""
+    res = Result("IDFIT")
+    f = prog.func("mpt_message_id2buf")
+    if f is None:
+        raise Broken("anchor missing: mpt_message_id2buf")
+    idp, ptrp, lenp = f.params[0]["id"], f.params[1]["id"], f.params[2]["id"]
+    PK = Analysis.PK
+
+    def hook(an, b, i, el, st):
+        v = st.get(("v", lenp))
+        st[PK] = v.lo if (v is not None and v.is_const()) else "?"
+
+    def outcomes(w, lo, hi):
+        an = Analysis(prog, f, hook=hook, edge_hook=lambda an, b, c, t, st: hook(an, b, 0, None, st))
+        st0 = an.entry_state()
+        st0[("v", idp)] = AV(lo, hi)
+        st0[("v", lenp)] = AV(w, w)
+        st0[("v", ptrp)] = AV(1, (1 << 64) - 1)
+        st0[PK] = w
+        an.run(state=st0, max_parts=64)
+        out = []
+        for el, vexpr, pos, parts in return_cases(an, f):
+            for pk, st in parts:
+                out.append(an.ev(vexpr, dict(st), True, f.blocks[pos[0]].el[pos[1]]))
+        return out
+
+    for w in range(1, 9):
+        top = (1 << (8 * w - 1)) - 1
+        rs = outcomes(w, 0, top)
+        ok = bool(rs) and all(r.lo > 0 or (r.lo == 0 and r.hi == 0) for r in rs) and any(r.lo > 0 for r in rs)
+        res.ob("mpt_message_id2buf:width %d accepts 0..2^%d-1" % (w, 8 * w - 1), ok, f, f.line,
+               "" if ok else "an id the width table permits can be refused: reachable returns %s" % [str(r) for r in rs], {"returns": [r.tojson() for r in rs]})
+        rs = outcomes(w, top + 1, (1 << (8 * w)) - 1)
+        ok = bool(rs) and all(r.hi < 0 for r in rs)
+        res.ob("mpt_message_id2buf:width %d refuses marker-bit ids" % w, ok, f, f.line,
+               "" if ok else "an id whose top bit collides with the reply marker can be written: reachable returns %s" % [str(r) for r in rs])
+        if w < 8:
+            rs = outcomes(w, 1 << (8 * w), (1 << 64) - 1)
+            ok = bool(rs) and all(r.hi < 0 for r in rs)
+            res.ob("mpt_message_id2buf:width %d refuses wider ids" % w, ok, f, f.line,
+                   "" if ok else "an id that needs more than %d bytes is not refused: reachable returns %s" % (w, [str(r) for r in rs]))
+    return res
